@@ -1236,3 +1236,75 @@ def check_stale_loop_reads(prog, rep, rels, rule='LOOP-stale-read'):
                               u.lineno)
     rep.instance(rule, {'modules': list(rels), 'functions_scanned': n})
     return n
+
+
+# ---------------------------------------------------------------------------------------------
+# REINDEX-congruent: a method that re-orders the parallel per-site containers of an MPS (tensors,
+# singular values, sites, forms) by comprehensions over index arrays moves every container by the
+# SAME map only if the index arrays are the same modulo L: identical names, or one defined as the
+# other `% self.L`.  Two independently computed index arrays (one rolled the other way, say) put
+# the sites / form labels next to tensors they do not belong to.
+def check_reindex_congruent(prog, rep, rels, rule='REINDEX-congruent',
+                            attrs=('sites', 'form', '_B', '_S')):
+    import ast
+    from .core import unparse
+    n = 0
+    for rel in rels:
+        m = prog.module(rel)
+        for q, f in sorted(m.functions.items()):
+            comps = {}   # local name -> iter name of the comprehension it is bound to
+            used = {}    # attribute -> (iter name, line)
+            defs = {}
+            for st in ast.walk(f):
+                if not (isinstance(st, ast.Assign) and len(st.targets) == 1):
+                    continue
+                t, v = st.targets[0], st.value
+                if isinstance(t, ast.Name):
+                    defs.setdefault(t.id, []).append(v)
+                it = None
+                if isinstance(v, ast.ListComp) and len(v.generators) == 1 and isinstance(
+                        v.generators[0].iter, ast.Name) and isinstance(
+                            v.generators[0].target, ast.Name):
+                    # the element must be looked up at the loop variable
+                    lv = v.generators[0].target.id
+                    if any(isinstance(x, ast.Name) and x.id == lv for x in ast.walk(v.elt)):
+                        it = v.generators[0].iter.id
+                if isinstance(t, ast.Name) and it:
+                    comps[t.id] = it
+                if isinstance(t, ast.Attribute) and isinstance(t.value, ast.Name) and \
+                        t.value.id == 'self' and t.attr in attrs:
+                    if it:
+                        used[t.attr] = (it, st.lineno)
+                    elif isinstance(v, ast.Name) and v.id in comps:
+                        used[t.attr] = (comps[v.id], st.lineno)
+            if len(used) < 2:
+                continue
+            n += 1
+            names = sorted({i for i, _ in used.values()})
+            rep.instance(rule, {'function': q, 'containers': sorted(used), 'index_arrays': names})
+            if len(names) == 1:
+                continue
+
+            def reduced_of(a, b):
+                """is `a` defined (only) as `b % self.L` / np.mod(b, self.L)?"""
+                ds = defs.get(a, [])
+                if len(ds) != 1:
+                    return False
+                d = ds[0]
+                if isinstance(d, ast.BinOp) and isinstance(d.op, ast.Mod) and \
+                        isinstance(d.left, ast.Name) and d.left.id == b:
+                    return True
+                if isinstance(d, ast.Call) and unparse(d.func) in ('np.mod', 'np.remainder') and \
+                        d.args and isinstance(d.args[0], ast.Name) and d.args[0].id == b:
+                    return True
+                return False
+            base = names[0]
+            for other in names[1:]:
+                if not (reduced_of(other, base) or reduced_of(base, other)):
+                    line = min(l for i, l in used.values() if i in (other, base))
+                    rep.violation(rule, m, q, 'independent-index-arrays:%s:%s' % (base, other),
+                                  'the per-site containers %s are re-ordered with `%s` and `%s`, '
+                                  'which are not defined as one another modulo L: sites / forms '
+                                  'may end up next to tensors they do not belong to' %
+                                  (sorted(used), base, other), line)
+    return n
